@@ -53,6 +53,25 @@ func (h *hookUtxos) Copy() application.UtxosManager {
 func (h *hookUtxos) UpdateUtxos(txs []*ledger.Transaction, ts int64) error { return h.inner.UpdateUtxos(txs, ts) }
 func (h *hookUtxos) Utxos(a string) []*ledger.Utxo                          { return h.inner.Utxos(a) }
 
+type hookAddresses struct {
+	inner    application.AddressesManager
+	onFilter func()
+}
+
+func (h *hookAddresses) Clear()                             { h.inner.Clear() }
+func (h *hookAddresses) Copy() application.AddressesManager { return h.inner.Copy() }
+func (h *hookAddresses) Filter(a []string) []string {
+	if h.onFilter != nil {
+		f := h.onFilter
+		h.onFilter = nil
+		f()
+	}
+	return h.inner.Filter(a)
+}
+func (h *hookAddresses) IsRegistered(a string) bool { return h.inner.IsRegistered(a) }
+func (h *hookAddresses) RemovedAddresses() []string { return h.inner.RemovedAddresses() }
+func (h *hookAddresses) Update(a []string, r []string) { h.inner.Update(a, r) }
+
 func runPlaceSuite(seed uint64, n int, out *Out, stats *Stats) {
 	for i := 0; i < n; i++ {
 		id := fmt.Sprintf("pl%d_%d", seed, i)
@@ -72,7 +91,8 @@ func runPlaceSuite(seed uint64, n int, out *Out, stats *Stats) {
 		nd.Ureg = verification.NewUtxosRegistry(set)
 		nd.Senders = &FakeSenders{host: "127.0.0.1:10600"}
 		hu := &hookUtxos{inner: nd.Ureg}
-		nd.Chain = verification.NewBlockchain(nd.Areg, set, nd.Senders, hu, nd.Log)
+		ha := &hookAddresses{inner: nd.Areg}
+		nd.Chain = verification.NewBlockchain(ha, set, nd.Senders, hu, nd.Log)
 		hb := &hookBlocks{inner: nd.Chain}
 		nd.Pool = validation.NewTransactionsPool(hb, set, nd.Senders, hu, nd.Validator, nd.Log)
 		w.host = nd
@@ -137,8 +157,39 @@ func runPlaceSuite(seed uint64, n int, out *Out, stats *Stats) {
 			}
 			return c
 		}
-		kind := i % 2
+		kind := i % 3
 		switch kind {
+		case 2:
+			// a sync round placed inside a production tick, when AddBlock consults the registry
+			helper := NewNode(set, w.wallets[1].Addr)
+			helper.Pool.Validate(nd.Chain.FirstBlockTimestamp()) // an empty node never syncs: own genesis first
+			helperSync(helper, w.now, []*Peer{honestPeer("10.6.0.1:10600", nd)})
+			helper.Pool.Validate(w.now + set.Interval)
+			helper.Pool.Validate(w.now + 2*set.Interval)
+			if len(helper.AllBlocks()) != len(nd.AllBlocks())+2 {
+				stats.Count("place/helper-not-in-sync")
+			}
+			nd.Pool.AddTransaction(txs[0], "mine", "h")
+			var wg sync.WaitGroup
+			ha.onFilter = func() {
+				wg.Add(1)
+				done := make(chan struct{})
+				go func() {
+					defer wg.Done()
+					p := honestPeer("10.6.0.2:10600", helper)
+					nd.Senders.Set([]application.Sender{&FakeSender{target: p.Target, getBlocks: p.Serve}})
+					nd.Chain.Update(w.now + 2*set.Interval)
+					nd.Senders.Set(nil)
+					close(done)
+				}()
+				select {
+				case <-done:
+				case <-time.After(60 * time.Millisecond): // it waits for the chain lock: let the tick go on
+				}
+			}
+			nd.Pool.Validate(w.now + set.Interval)
+			wg.Wait()
+			stats.Count("place/sync-inside-addblock")
 		case 0:
 			// a submission placed inside a production tick, at the pool's AddBlock call
 			nd.Pool.AddTransaction(txs[0], "first", "h")
@@ -171,6 +222,7 @@ func runPlaceSuite(seed uint64, n int, out *Out, stats *Stats) {
 		case 1:
 			// a production tick placed inside a sync round, between verification and commit
 			helper := NewNode(set, w.wallets[1].Addr)
+			helper.Pool.Validate(nd.Chain.FirstBlockTimestamp())
 			helperSync(helper, w.now, []*Peer{honestPeer("10.6.0.1:10600", nd)})
 			helper.Pool.AddTransaction(txs[0], "a", "b")
 			helper.Pool.Validate(w.now + set.Interval)
@@ -191,10 +243,10 @@ func runPlaceSuite(seed uint64, n int, out *Out, stats *Stats) {
 		mon.CheckChain(blocks, "after the placement")
 		mon.CheckDerived(nd, blocks, univ, "after the placement")
 		if out.Violations > before {
-			out.Violation("C16", id, fmt.Sprintf("quiescent-state:%s\tafter the placement the node violates C01-C07 (see the lines above for this case)", []string{"submit-inside-tick", "tick-inside-sync"}[kind]))
+			out.Violation("C16", id, fmt.Sprintf("quiescent-state:%s\tafter the placement the node violates C01-C07 (see the lines above for this case)", []string{"submit-inside-tick", "tick-inside-sync", "sync-inside-addblock"}[kind]))
 		}
 		stats.Mark(fmt.Sprintf("%d/%d/%d", kind, len(blocks), len(nd.Pool.Transactions())))
-		stats.Sample(fmt.Sprintf("%s: placement %s; chain of %d blocks, pool of %d afterwards", id, []string{"submission inside a production tick (at AddBlock)", "production tick inside a sync round (at the registry copy of verify)"}[kind], len(blocks), len(nd.Pool.Transactions())))
+		stats.Sample(fmt.Sprintf("%s: placement %s; chain of %d blocks, pool of %d afterwards", id, []string{"submission inside a production tick (at AddBlock)", "production tick inside a sync round (at the registry copy of verify)", "sync round inside a production tick (when AddBlock consults the registry)"}[kind], len(blocks), len(nd.Pool.Transactions())))
 		stats.Cases++
 		stats.Ops += 2
 	}
